@@ -365,10 +365,23 @@ func (o *Own) classOf1(v ssa.Value) vpair {
 			}
 			return freshP
 		}
-		callee, _ := calleeOf(x.Common())
-		if callee == nil {
+		cands := calleesOf(x.Common())
+		if len(cands) == 0 {
 			return foreignP("result of a dynamic call")
 		}
+		out := o.classOfCall(x, cands[0])
+		for _, cnd := range cands[1:] {
+			out = joinP(out, o.classOfCall(x, cnd))
+		}
+		return out
+	}
+	return foreignP(fmt.Sprintf("%T", v))
+}
+
+// classOfCall: the class of the result of call x if its callee is `callee` (one of the candidates of a
+// call through a function value chosen among named functions).
+func (o *Own) classOfCall(x *ssa.Call, callee *ssa.Function) vpair {
+	{
 		if isDeepCopyCallee(callee) {
 			return freshP
 		}
@@ -410,7 +423,6 @@ func (o *Own) classOf1(v ssa.Value) vpair {
 		}
 		return foreignP("result of " + p + "." + callee.Name())
 	}
-	return foreignP(fmt.Sprintf("%T", v))
 }
 
 // returnClass: join over all returns of the first tree-like result.
@@ -531,61 +543,62 @@ func (o *Own) Infer() []ownSite {
 							}
 							continue
 						}
-						callee, _ := calleeOf(cc)
-						if callee == nil || !o.scope[origin(callee)] {
-							continue
-						}
-						callee = origin(callee)
-						for k, a := range cc.Args {
-							if k >= len(callee.Params) {
-								break
-							}
-							nS, nD, nC := o.mutS[callee][k], o.mutD[callee][k], o.capt[callee][k]
-							if !nS && !nD && !nC {
+						for _, callee := range calleesOf(cc) {
+							if callee == nil || !o.scope[origin(callee)] {
 								continue
 							}
-							if !mayHoldTree(a) && !isTreeType(a.Type()) {
-								continue
-							}
-							ac := o.classOf(a)
-							var need []string
-							req := freshC
-							if nS {
-								need = append(need, "written")
-								req = joinC(req, ac.self)
-							}
-							if nD {
-								need = append(need, "written below the top level")
-								req = joinC(req, ac.all())
-							}
-							if nC {
-								need = append(need, "linked into another tree")
-								req = joinC(req, ac.all())
-							}
-							contract := strings.Join(need, " and ")
-							key := fmt.Sprintf("arg:%s#%d", FuncName(callee), k)
-							switch req.kind {
-							case 0:
-								sites = append(sites, ownSite{fn, x, key, true, "argument is fresh (deep copy / newly made) where the callee's parameter is " + contract})
-							case 1:
+							callee = origin(callee)
+							for k, a := range cc.Args {
+								if k >= len(callee.Params) {
+									break
+								}
+								nS, nD, nC := o.mutS[callee][k], o.mutD[callee][k], o.capt[callee][k]
+								if !nS && !nD && !nC {
+									continue
+								}
+								if !mayHoldTree(a) && !isTreeType(a.Type()) {
+									continue
+								}
+								ac := o.classOf(a)
+								var need []string
+								req := freshC
 								if nS {
-									if ac.top && ac.self.kind == 1 {
-										if o.set(o.mutS, "mutShallow", fn, ac.self) {
+									need = append(need, "written")
+									req = joinC(req, ac.self)
+								}
+								if nD {
+									need = append(need, "written below the top level")
+									req = joinC(req, ac.all())
+								}
+								if nC {
+									need = append(need, "linked into another tree")
+									req = joinC(req, ac.all())
+								}
+								contract := strings.Join(need, " and ")
+								key := fmt.Sprintf("arg:%s#%d", FuncName(callee), k)
+								switch req.kind {
+								case 0:
+									sites = append(sites, ownSite{fn, x, key, true, "argument is fresh (deep copy / newly made) where the callee's parameter is " + contract})
+								case 1:
+									if nS {
+										if ac.top && ac.self.kind == 1 {
+											if o.set(o.mutS, "mutShallow", fn, ac.self) {
+												changed = true
+											}
+										} else if o.set(o.mutD, "mutDeep", fn, ac.self) {
 											changed = true
 										}
-									} else if o.set(o.mutD, "mutDeep", fn, ac.self) {
+									}
+									if nD && o.set(o.mutD, "mutDeep", fn, ac.all()) {
 										changed = true
 									}
+									if nC && o.set(o.capt, "cap", fn, ac.all()) {
+										changed = true
+									}
+									sites = append(sites, ownSite{fn, x, key, true, "argument belongs to the caller's own parameters (callee: " + contract + "); the obligation moves to this function's callers"})
+								case 2:
+									sites = append(sites, ownSite{fn, x, key, false, "argument is " + req.String() + " but the callee's parameter is " + contract})
 								}
-								if nD && o.set(o.mutD, "mutDeep", fn, ac.all()) {
-									changed = true
-								}
-								if nC && o.set(o.capt, "cap", fn, ac.all()) {
-									changed = true
-								}
-								sites = append(sites, ownSite{fn, x, key, true, "argument belongs to the caller's own parameters (callee: " + contract + "); the obligation moves to this function's callers"})
-							case 2:
-								sites = append(sites, ownSite{fn, x, key, false, "argument is " + req.String() + " but the callee's parameter is " + contract})
 							}
 						}
 					case *ssa.Store:
